@@ -196,10 +196,25 @@ let () =
         let ops = List.init nops (fun _ -> parse_op (input_line stdin)) in
         let outs = drun dinit ops in
         let files = dfiles dinit ops in
+        print_endline (if dhist_ok dinit ops then "history_ok true" else "history_ok false");
         List.iter2 (fun o f ->
           let b = Bytes.create (List.length f) in
           List.iteri (fun i x -> Bytes.set b i (Char.chr (int_of_n x))) f;
           print_endline (out_str o ^ " | " ^ string_of_int (Bytes.length b) ^ " " ^ Digest.to_hex (Digest.bytes b))) outs files;
+        print_endline "END";
+        flush stdout
+      | ["mrun"; fb; nops] ->
+        (* several handles: "snap" and "close" lines are handle operations, everything else goes through handle H *)
+        let nops = int_of_string nops in
+        let mops = List.init nops (fun _ ->
+          let line = input_line stdin in
+          match String.split_on_char ' ' line with
+          | k :: h :: _ when k = "snap" -> MSnap (nat_of_int (int_of_string h))
+          | k :: h :: _ when k = "close" -> MClose (nat_of_int (int_of_string h))
+          | _ :: h :: _ -> MOp (nat_of_int (int_of_string h), parse_op line)
+          | _ -> raise (Unsupported line)) in
+        let outs = mrun (minit (fb = "1")) mops in
+        List.iter (fun o -> print_endline (match o with MSkip -> "skip" | MOut r -> out_str r)) outs;
         print_endline "END";
         flush stdout
       | ["quit"] -> exit 0
